@@ -2,11 +2,14 @@
 import re
 from .common import *
 from ..escape import Escape
-from ..lockset import LockAnalysis
+from ..lockset import LockAnalysis, access_is_write, effective_locks, alias_write_nodes
 
 EXPLANATION = (
     "Decides for all interleavings, request bytes and client behaviours: the counter map is only "
-    "touched with stats_mutex_ held and each public operation is one critical section (so every "
+    "read with stats_mutex_ held (shared or exclusive) and only written - directly or through an "
+    "iterator/reference obtained from it - with stats_mutex_ held exclusively; every other field of "
+    "Stats reached from two threads with a write outside construction has one common lock (generic "
+    "audit, also covers fields added later); each public operation is one critical section (so every "
     "interleaving equals some sequential order and increments cannot be lost); thread_count_ changes "
     "only under thread_mutex_; the handler slot taken before a handler thread is created is given "
     "back, with a notification, on every exit of processMsg, and the connection is closed on every "
@@ -37,17 +40,29 @@ def run(ctx):
             continue
         n_acc += 1
         ctx.use(f)
-        h = LA.held(f, i)
-        ctx.check(STATS_MUTEX in h, "stats_-under-stats_mutex_:" + short(f), "guarded_by(lockset)", f.loc(i),
-                  "stats_ is accessed with stats_mutex_ held",
-                  "stats_ is accessed without stats_mutex_ (held here: %s): a concurrent increment can be lost or the "
-                  "map read while it rehashes" % (sorted(x.split("::")[-1] for x in h) or "none"))
+        w = access_is_write(f, i, "Oomd::Stats::stats_")
+        h0 = LA.held(f, i)
+        h = effective_locks(h0, w)
+        ctx.check(STATS_MUTEX in h, "stats_-under-stats_mutex_:" + short(f), "guarded_by(lockset, reader/writer modes)", f.loc(i),
+                  "stats_ is %s with stats_mutex_ held%s" % ("written" if w else "read", "" if w else " (shared or exclusive)"),
+                  "stats_ is %s without %sstats_mutex_ (held here: %s): a concurrent increment can be lost or the "
+                  "map read while it rehashes" % ("written" if w else "read", "exclusive " if w else "", sorted(x.split("::")[-1] for x in h0) or "none"))
+    # writes through iterators / references into the map count as writes of the map
+    for f in P.fns.values():
+        for i in alias_write_nodes(f, "Oomd::Stats::stats_"):
+            n_acc += 1
+            ctx.use(f)
+            h0 = LA.held(f, i)
+            ctx.check(STATS_MUTEX in effective_locks(h0, True), "stats_-element-written-under-exclusive-lock:%s@%d" % (short(f), f.nodes[i].get("line", 0)),
+                      "guarded_by(lockset, reader/writer modes, iterator aliases)", f.loc(i), "an element of stats_ is modified through an iterator/reference with stats_mutex_ held exclusively",
+                      "an element of stats_ is modified through an iterator/reference while stats_mutex_ is held only in %s mode: two threads "
+                      "incrementing the same counter lose updates" % ("shared" if any(x.endswith("#shared") for x in h0) else "no"))
     ctx.counters["stats_map_accesses"] = n_acc
     ctx.floor("stats_map_accesses", 6, "accesses of Stats::stats_")
     for q in ("getAll", "increment", "set", "reset"):
         f = ctx.fn1("Oomd::Stats::" + q)
         gv = LA.guard_vars(f)
-        ctx.check(len(gv) == 1 and list(gv.values())[0][1] == STATS_MUTEX, "one-critical-section:Stats::" + q, "lock-shape", f.loc(),
+        ctx.check(len(gv) == 1 and list(gv.values())[0][1] in ((STATS_MUTEX,) if q != "getAll" else (STATS_MUTEX, STATS_MUTEX + "#shared")), "one-critical-section:Stats::" + q, "lock-shape", f.loc(),
                   q + " is a single critical section on stats_mutex_", q + " takes %d guards" % len(gv))
     n_tc = 0
     for f, i in LA.field_accesses("Oomd::Stats::thread_count_"):
@@ -312,3 +327,11 @@ def run(ctx):
                   "an exception can escape the thread started in %s (std::terminate): %s" % (creator.pq, "; ".join("%s at %s" % (s.what, s.loc()) for s, _ in esc[:3])),
                   esc[0][1] if esc else None)
     ctx.floor("stats_thread_roots", 2, "thread roots in Stats (acceptor, handler)")
+    # generic audit: every field of Stats shared between threads (also ones added later) has one common lock
+    cd = {f.usr for f in P.fns.values() if f.kind in ("ctor", "dtor") and f.cls == "Oomd::Stats"}
+    LA2 = LockAnalysis(P, cg, ignore_callers=cd)
+    roots = {}
+    for t_usr, creator, node in cg.thread_roots:
+        if "Stats::" in creator.pq:
+            roots[creator.pq.split("::")[-1]] = t_usr
+    shared_fields_rule(ctx, LA2, ["Oomd::Stats"], roots, self_concurrent=list(roots), floor=1)
